@@ -461,6 +461,9 @@ def reset_check(ctx):
                      f"({[x.name for x in new]})")
         elif runs.count(w) != 1:
             rep.fail("pred", case, f"after generator.cache.reset() the body ran {runs.count(w)} times for one parameter value")
+        elif any(new[0] is x for x in old):
+            # (`reset_starts_afresh`: what is handed out after the reset was made after it)
+            rep.fail("pred", case, "after generator.cache.reset() a module made before the reset was handed out")
 
 
 def uncached_check(ctx):
